@@ -123,7 +123,7 @@ fn gen_op(rng: &mut StdRng, d: &Driver, profile: &str) -> Value {
                 if qfamily::needs_target(q) {
                     return json!({"op": "query", "w": w, "q": q, "v": rng.gen_range(1..50), "e": target(rng)});
                 }
-                return json!({"op": "query", "w": w, "q": q, "v": rng.gen_range(1..50)});
+                return json!({"op": "query", "w": w, "q": q, "v": rng.gen_range(1..50), "st": rng.gen_range(0..4)});
             }
             _ => continue,
         }
@@ -133,6 +133,21 @@ fn gen_op(rng: &mut StdRng, d: &Driver, profile: &str) -> Value {
 fn main() {
     let args: Vec<String> = std::env::args().collect();
     std::panic::set_hook(Box::new(|_| {})); // panics are data; keep stderr quiet
+    if std::env::var("VERIF_HEAP").map(|v| v == "1").unwrap_or(true) {
+        // warm up lazily initialised state (rayon's global pool, thread-locals) before recording
+        {
+            let mut d = Driver::new(Box::new(std::io::sink()));
+            d.qfamily = Some(QFamily { n: qfamily::N_QUERIES, run: qfamily::run, needs_target: qfamily::needs_target });
+            let mut rng = StdRng::seed_from_u64(99);
+            for _ in 0..300 {
+                let op = gen_op(&mut rng, &d, "mixed");
+                if !d.exec(&op) { break; }
+            }
+            d.exec(&json!({"op": "reset"}));
+            comps::drain_ledger();
+        }
+        heap::enable();
+    }
     match args[1].as_str() {
         "script" => {
             let out = BufWriter::new(File::create(&args[3]).unwrap());
